@@ -54,6 +54,10 @@ func (s *SwaggerExporter) GenerateSwagger() error {
 	sort.Strings(endpointNames)
 	for _, endpointName := range endpointNames {
 		endpoint := s.app.Endpoints[endpointName]
+		if endpoint.GetRestParams() == nil {
+			s.log.Warnf("Skipping endpoint %q: not a REST endpoint", endpointName)
+			continue
+		}
 		err := endpointExporter.populateEndpoint(endpointName, endpoint, s.buildSwagger.Paths.Paths)
 		if err != nil {
 			return err
